@@ -48,8 +48,11 @@ def heat(dgm1, dgm2, sigma=0.4):
         heat kernel distance between dgm1 and dgm2
 
     """
-    return np.sqrt(
+    # the squared kernel distance is non-negative in exact arithmetic; rounding can make it
+    # slightly negative for (nearly) equal diagrams, which would give NaN
+    dist2 = (
         evalHeatKernel(dgm1, dgm1, sigma)
         + evalHeatKernel(dgm2, dgm2, sigma)
         - 2 * evalHeatKernel(dgm1, dgm2, sigma)
     )
+    return np.sqrt(max(dist2, 0.0))
